@@ -153,6 +153,18 @@ def rule_truthy(ctx):
             c = e.data["cond"]
             if isinstance(c, Term) and B.parsed_prefix(c) is not None:
                 tested = True  # 'if message:' / 'if not message:' on the parsed message itself
+    # the sending side has the same idiom: Driver.send_message(msg) forwards 'if ... and msg'
+    sm = p.cls("indi.device.driver.Driver").find_method("send_message")
+    sender_tested = False
+    if sm is not None:
+        pname = sm.params()[1] if len(sm.params()) > 1 else None
+        for pa in run_method(p, sm):
+            for e in pa.assumes():
+                c = e.data["cond"]
+                if isinstance(c, Term) and c.op == "param" and c.args[0] == pname:
+                    sender_tested = True
+    where = " and ".join(filter(None, ["Buffer.process tests the parsed message for truthiness and discards it instead of delivering it" if tested else "", "Driver.send_message tests the message for truthiness and silently does not send it" if sender_tested else ""]))
+    tested = tested or sender_tested
     base = msg_base(p)
     bad = []
     for ci in concrete_message_classes(p):
@@ -162,7 +174,7 @@ def rule_truthy(ctx):
                 break
     if bad and tested:
         ci, k = bad[0]
-        ctx.violated("C02.TRUTHY", ci.short, f"{k.name} defines {'__bool__' if '__bool__' in k.methods else '__len__'}: a well-formed <{ci.name[0].lower() + ci.name[1:]}> can be falsy, and Buffer.process (which tests the parsed message for truthiness) then discards it instead of delivering it ({len(bad)} message classes affected)", ci=k, text=f"falsy-message:{k.name}", witness=f"{ci.name} without children")
+        ctx.violated("C02.TRUTHY", ci.short, f"{k.name} defines {'__bool__' if '__bool__' in k.methods else '__len__'}: a well-formed <{ci.name[0].lower() + ci.name[1:]}> can be falsy (e.g. the definition of a property all of whose elements are disabled), and {where} ({len(bad)} message classes affected)", ci=k, text=f"falsy-message:{k.name}", witness=f"{ci.name} without children")
     elif bad:
         ctx.holds("C02.TRUTHY", base.short, "some message classes define __bool__/__len__, but the buffer does not test parsed messages for truthiness", ci=base)
     else:
